@@ -11,6 +11,14 @@ _VARIANT = {
 }
 
 
+def variant_of(name):
+    if name in _VARIANT:
+        return _VARIANT[name]
+    if name.isalnum():
+        return "K" + name
+    return "P" + "".join("%02x" % ord(c) for c in name)
+
+
 def terms(spec):
     """ "n:u8 + * ( )" -> [Term..]  (":ty" adds a payload)"""
     out = []
@@ -21,7 +29,7 @@ def terms(spec):
                 name, ty = ":", None
         else:
             name, ty = item, None
-        out.append(Term(name, _VARIANT[name], ty))
+        out.append(Term(name, variant_of(name), ty))
     return out
 
 
